@@ -179,7 +179,12 @@ class C05(RecorderProp):
             end = ['ret', Outer().run()]
         except Exception as ex:
             end = ['exc', type(ex).__name__]
-        return {'end': end, 'log': list(log), 'idle': [bool(tr.in_recording_mode), bool(tr.in_playback_mode)]}
+        recorded = None
+        rid = cassette.get_last_recording_id()
+        if rid != ref_id and log[-1:] == ['save']:
+            rec = cassette.get_recording(rid)
+            recorded = sorted([k, rec.get_data(k)['args'][-1]] for k in rec.get_all_keys() if k.startswith('output: snd #') and k.endswith('.output'))
+        return {'end': end, 'log': list(log), 'idle': [bool(tr.in_recording_mode), bool(tr.in_playback_mode)], 'recorded_snd': recorded}
 
     def run_impl(self, case):
         if case.get('kind') == 'playinside':
